@@ -51,7 +51,7 @@ pub struct Cfg { pub seed: u64, pub steps: u64, pub step_size: u64, pub tick: u3
 pub fn cfg(i: u64, base: u64) -> Cfg {
     let mut g = Sm(base.wrapping_mul(0x9E3779B97F4A7C15) ^ (i + 1).wrapping_mul(0xD6E8FEB86659FD93));
     // boundary seeds first: 0, 1 and the all-ones word; then random seeds of every magnitude
-    Cfg { seed: match i { 0 => 0, 1 => 1, 2 => u64::MAX, _ => g.next() >> g.below(60) }, steps: { let r = g.below(20); if r < 13 { 1 + g.below(47) } else if r < 19 { 200 + g.below(600) } else { 1000 + g.below(2500) } }, step_size: *g.pick(&[100u64, 1000, 1_000_000]), tick: 1 + g.below(10) as u32, market: g.chance(1, 3), shape: g.below(2) as u8 }
+    Cfg { seed: match i { 0 => 0, 1 => 1, 2 => u64::MAX, _ => g.next() >> g.below(60) }, steps: { let r = g.below(20); if r < 12 { 1 + g.below(47) } else if r < 17 { 200 + g.below(600) } else { 1000 + g.below(4000) } }, step_size: *g.pick(&[100u64, 1000, 1_000_000]), tick: 1 + g.below(10) as u32, market: g.chance(1, 3), shape: g.below(2) as u8 }
 }
 
 fn noise(tick: u32, first: u32, g: &mut Sm) -> NoiseAgentParams {
